@@ -145,7 +145,7 @@ def run_loom(ctx, progs, cfg_of=None, tag="loom", per_prog_timeout=300):
     return res
 
 
-FAIL_ENDS = ("deadlock", "race", "leak:arc", "leak:alloc", "leak:msg", "panic")
+FAIL_ENDS = ("deadlock", "race", "leak:arc", "leak:alloc", "leak:msg", "panic", "usage")
 
 
 def compare_sandwich(ctx, p, lo, up, res, want=("complete", "sound", "fails")):
